@@ -3,6 +3,7 @@ import JsonVerif.Lemmas.Steps
 import JsonVerif.Model.Entry
 import JsonVerif.Lemmas.Hub
 import JsonVerif.Lemmas.Viable
+import JsonVerif.Lemmas.RunComplete
 /-!
 # C07 — Parse errors point at the first offending character
 
@@ -117,11 +118,43 @@ theorem C07_error_is_local (o : ParseOptions) (pre : List Char) (a : Char) (rest
     parseChars o (pre ++ a :: rest') false = .error (.unexpected (utf8Len pre) (some a)) :=
   parse_error_local o pre a rest rest' h
 
-/-- Full statement of the viable-prefix clause; the lower bound (`Viable pre`) is not yet proved and
-    is tested against an independent LL(1) recogniser on every rejected input of the streams. -/
-def C07_viable_full : Prop :=
-  ∀ cs p c, parseChars ⟨false, false⟩ cs false = .error (.unexpected p c) →
+/-- **Lower bound of the viable prefix** (the other half): the input before the reported offset IS
+    viable — some continuation of it is a JSON text. Proof: every step of the machine that touches
+    the reported offset (fails there, or stops exactly there) can be completed — partial numbers,
+    literals, strings, keys by explicit completions (Lemmas/TokComplete.lean, StepComplete.lean) —
+    and from any well-formed configuration the run on the closing brackets succeeds
+    (`run_close`); the steps strictly before are replayed by locality (`run_viable`). -/
+theorem C07_prefix_viable (cs : List Char) (p : Nat) (c : Option Char)
+    (h : parseChars ⟨false, false⟩ cs false = .error (.unexpected p c)) :
+    ∃ pre rest, cs = pre ++ rest ∧ p = utf8Len pre ∧ Viable pre := by
+  obtain ⟨pre, rest, e, hp, _⟩ := C07_unexpected _ cs false p c h
+  subst e hp
+  exact ⟨pre, rest, rfl, rfl, viable_before pre rest c h⟩
+
+/-- **The first clause of the property in full**: when strict parsing fails with an
+    unexpected-character error, the reported byte offset is the length of the LONGEST prefix of the
+    input that can still be extended to a text of the grammar in which any `\\uXXXX` escape is
+    allowed: that prefix is viable, and the prefix one character longer is not (hence no longer
+    one is: a prefix of a viable prefix is viable). -/
+theorem C07_longest_viable_prefix (cs : List Char) (p : Nat) (c : Option Char)
+    (h : parseChars ⟨false, false⟩ cs false = .error (.unexpected p c)) :
     ∃ pre rest, cs = pre ++ rest ∧ p = utf8Len pre ∧ Viable pre ∧
-      (∀ a, rest.head? = some a → ¬ Viable (pre ++ [a]))
+      (∀ a, rest.head? = some a → ¬ Viable (pre ++ [a])) := by
+  obtain ⟨pre, rest, e, hp, hc⟩ := C07_unexpected _ cs false p c h
+  subst e hp
+  refine ⟨pre, rest, rfl, rfl, viable_before pre rest c h, ?_⟩
+  intro a ha
+  cases rest with
+  | nil => simp at ha
+  | cons b rest =>
+    simp only [List.head?_cons, Option.some.injEq] at ha hc
+    subst ha hc
+    rintro ⟨suffix, v, hd⟩
+    exact not_viable_beyond pre b rest h suffix v (by simpa using hd)
+
+/-- a prefix of a viable prefix is viable -/
+theorem C07_viable_prefix_closed (a b : List Char) (h : Viable (a ++ b)) : Viable a := by
+  obtain ⟨suffix, v, hd⟩ := h
+  exact ⟨b ++ suffix, v, by simpa using hd⟩
 
 end JsonVerif.C07
